@@ -16,41 +16,48 @@ Proof.
 Qed.
 
 (* ================= map rectangles ================= *)
-Lemma map_get_rect_ok m g x y w h :
+Lemma map_get_rect_gen m g hg x y w h :
   zlen m = 4096 -> zlen g = 8192 -> 0 <= x <= 127 -> 0 <= y <= 63 -> 1 <= w -> 1 <= h ->
-  map_get_rect_tiles m g true x y w h = Ok (spec_get_rect m g x y w h).
+  hg = true \/ y + h <= 32 ->
+  map_get_rect_tiles m g hg x y w h = Ok (spec_get_rect m g x y w h).
 Proof.
-  intros Lm Lg Hx Hy Hw Hh. unfold map_get_rect_tiles, spec_get_rect.
+  intros Lm Lg Hx Hy Hw Hh Hg. unfold map_get_rect_tiles, spec_get_rect.
   rewrite assert_true by (unfold map_grt_assert_x; lia). cbn [bind].
   rewrite assert_true by (unfold map_grt_assert_w; lia). cbn [bind].
   rewrite assert_true by (unfold map_grt_assert_h; lia). cbn [bind].
   rewrite assert_true by (unfold map_grt_assert_y; lia). cbn [bind].
-  rewrite assert_true by (unfold map_grt_assert_g; cbn [negb]; lia). cbn [bind].
-  rewrite !range_zrange.
+  rewrite assert_true by (unfold map_grt_assert_g; destruct Hg as [-> | Hg]; [cbn [negb]|destruct hg; cbn [negb]]; lia).
+  cbn [bind]. rewrite !range_zrange.
   apply mapM_total. intros ty Hty. apply in_zrange in Hty.
   apply mapM_total. intros tx Htx. apply in_zrange in Htx.
   unfold map_grt_offedge. rewrite !Z.gtb_ltb.
   destruct ((63 <? ty) || (127 <? tx)) eqn:E; [reflexivity|].
-  apply map_get_cell_ok; try assumption; lia.
+  apply map_get_cell_gen; try assumption; try lia. destruct Hg as [Hg | Hg]; [left; exact Hg | right; lia].
 Qed.
+
+Lemma map_get_rect_ok m g x y w h :
+  zlen m = 4096 -> zlen g = 8192 -> 0 <= x <= 127 -> 0 <= y <= 63 -> 1 <= w -> 1 <= h ->
+  map_get_rect_tiles m g true x y w h = Ok (spec_get_rect m g x y w h).
+Proof. intros. apply map_get_rect_gen; auto. Qed.
 
 Definition mg_inv (st : list Z * list Z) : Prop :=
   zlen (fst st) = 4096 /\ zlen (snd st) = 8192 /\ Forall byte (fst st) /\ Forall byte (snd st).
 
-Lemma map_set_rect_ok m g x y rows :
+Lemma map_set_rect_gen m g hg x y rows :
   zlen m = 4096 -> zlen g = 8192 -> Forall byte m -> Forall byte g ->
-  0 <= x -> 0 <= y -> rows_in 0 255 rows = true ->
-  map_set_rect_tiles m g true rows x y = Ok (spec_set_rect (m, g) x y rows) /\
+  0 <= x -> 0 <= y -> rows_in 0 255 rows = true -> hg = true \/ y + zlen rows <= 32 ->
+  map_set_rect_tiles m g hg rows x y = Ok (spec_set_rect (m, g) x y rows) /\
   mg_inv (spec_set_rect (m, g) x y rows).
 Proof.
-  intros Lm Lg Bm Bg Hx Hy HR. pose proof (rows_in_spec _ _ _ HR) as HV.
+  intros Lm Lg Bm Bg Hx Hy HR Hg. pose proof (rows_in_spec _ _ _ HR) as HV.
   unfold map_set_rect_tiles, spec_set_rect. rewrite enumerate_from_indexed.
   apply (foldM_total _
     (fun mg yr => let '(ty, row) := yr in
        fold_left (fun mg xv => let '(tx, v) := xv in
          if (63 <? ty + y) || (127 <? tx + x) then mg else set_cell mg (tx + x) (ty + y) v) (indexed 0 row) mg)
     mg_inv); [|unfold mg_inv; cbn [fst snd]; auto].
-  intros st [ty row] Ist Hin. apply in_indexed in Hin. destruct Hin as (Hty & Hrow).
+  intros st [ty row] Ist Hin. pose proof (in_indexed_nth _ _ _ _ Hin) as (Hty2 & _).
+  apply in_indexed in Hin. destruct Hin as (Hty & Hrow).
   rewrite enumerate_from_indexed.
   apply (foldM_total _
     (fun mg xv => let '(tx, v) := xv in
@@ -60,9 +67,17 @@ Proof.
   unfold map_srt_skip, map_srt_cx, map_srt_cy. rewrite !Z.gtb_ltb.
   destruct ((63 <? ty + y) || (127 <? tx + x)) eqn:E.
   - split; [reflexivity|]. unfold mg_inv. cbn [fst snd]. auto.
-  - destruct (map_set_cell_ok m1 g1 (tx + x) (ty + y) v) as (E1 & A1 & A2 & A3 & A4); try assumption; try lia.
+  - destruct (map_set_cell_gen m1 g1 hg (tx + x) (ty + y) v) as (E1 & A1 & A2 & A3 & A4); try assumption; try lia.
+    { destruct Hg as [Hg | Hg]; [left; exact Hg | right; lia]. }
     split; [exact E1|]. unfold mg_inv. auto.
 Qed.
+
+Lemma map_set_rect_ok m g x y rows :
+  zlen m = 4096 -> zlen g = 8192 -> Forall byte m -> Forall byte g ->
+  0 <= x -> 0 <= y -> rows_in 0 255 rows = true ->
+  map_set_rect_tiles m g true rows x y = Ok (spec_set_rect (m, g) x y rows) /\
+  mg_inv (spec_set_rect (m, g) x y rows).
+Proof. intros. apply map_set_rect_gen; auto. Qed.
 
 (* ================= get_sprite ================= *)
 Lemma gs_pixel_ok d ty yo tx xo :
